@@ -48,11 +48,10 @@ Proof.
   - now apply vers_meta_del.
   - apply vers_meta_put; auto. cbn. apply Hh. lia.
 Qed.
-Lemma vers_put_seq (S : Z -> Prop) k ver vs : S ver -> forall seq delta s s', put_seq s k ver seq delta vs = Some s' -> vers_in S s -> vers_in S s'.
+Lemma vers_put_seq (S : Z -> Prop) k ver vs : S ver -> forall seq delta s, vers_in S s -> vers_in S (fst (put_seq s k ver seq delta vs)).
 Proof.
-  intros Hv. induction vs as [|v vs IH]; intros seq delta s s' H V; simpl in H.
-  - now inversion H; subst.
-  - destruct (el_get s TL k ver (SI seq)); [discriminate|]. eapply IH; eauto. now apply vers_el_put.
+  intros Hv. induction vs as [|v vs IH]; intros seq delta s V; simpl; auto.
+  destruct (el_get s TL k ver (SI seq)); auto. apply IH. now apply vers_el_put.
 Qed.
 Lemma vers_list_set_meta (S : Z -> Prop) s k h hd tl s' : S (h_ver h) -> list_set_meta s k h hd tl = Some s' -> vers_in S s -> vers_in S s'.
 Proof.
@@ -89,6 +88,19 @@ Section Step.
     destruct (el_get s TH k (h_ver h) (SB f)); [destruct nx|]; cbn [fst]; auto.
     - now apply vers_el_put.
     - apply vers_el_put; auto. apply vers_incr_size; auto.
+  Qed.
+
+  Lemma vers_apply_fix s0 s k : vers_in S s -> vers_in S' s0 -> vers_in S' (apply_fix s0 k (scanfix Compact s ts k)).
+  Proof.
+    intros V V0. unfold scanfix. destruct (coll_header Compact s ts TL k) as [[h ud] ex] eqn:E.
+    destruct (not_exist_or_expired ud ex) eqn:N; [exact V0|].
+    destruct ud as [[a b]|]; [|destruct ex; discriminate].
+    pose proof (hdr_ver _ _ _ _ _ _ _ V E) as Hh.
+    destruct (list_meta_of (Some (a, b))) as [[hd tl] llen]. cbv zeta.
+    destruct (negb (contig (list_seqs s k (h_ver h)))); [exact V0|].
+    destruct (list_seqs s k (h_ver h)) as [|f r].
+    - destruct ((hd =? 0) && (tl =? 0)); [exact V0|]. destruct (llen =? 0); [exact V0 | now apply vers_meta_del].
+    - match goal with |- context [if ?c then _ else _] => destruct c end; [exact V0 | now apply vers_meta_put].
   Qed.
 
   Theorem vers_step s c : vers_in S s -> vers_in S' (fst (step Compact s ts c)).
@@ -178,13 +190,15 @@ Section Step.
       destruct (coll_prepare Compact s ts TL k) as [[h ud] ex] eqn:E. pose proof (prep_ver _ _ _ _ _ _ V E) as Hh.
       destruct (list_meta_of ud) as [[hd0 tl0] size]. destruct vs; cbn [fst]; auto.
       match goal with |- context [if ?c then _ else _] => destruct c end; cbn [fst]; auto.
-      match goal with |- context [put_seq ?a ?b ?c ?d ?e ?f] => destruct (put_seq a b c d e f) as [s1|] eqn:PS end; cbn [fst]; auto.
-      match goal with |- context [list_set_meta ?a ?b ?c ?d ?e] => destruct (list_set_meta a b c d e) as [s2|] eqn:LS end; cbn [fst]; auto.
-      eapply vers_list_set_meta; eauto. eapply vers_put_seq; eauto.
+      match goal with |- context [put_seq ?a ?b ?c ?d ?e ?f] => pose proof (vers_put_seq S' b c f Hh d e a V') as PS; destruct (put_seq a b c d e f) as [s1 ok] end.
+      cbn [fst] in PS. destruct ok.
+      + match goal with |- context [list_set_meta ?a ?b ?c ?d ?e] => destruct (list_set_meta a b c d e) as [s2|] eqn:LS end; cbn [fst]; auto.
+        eapply vers_list_set_meta; eauto.
+      + cbn [fst]. now apply vers_apply_fix.
     - (* lpop *) unfold do_lpop. destruct (coll_header Compact s ts TL k) as [[h ud] ex] eqn:E.
       destruct (not_exist_or_expired ud ex) eqn:N; cbn [fst]; auto. destruct (list_meta_of ud) as [[hd0 tl0] size].
       destruct (size =? 0); cbn [fst]; auto.
-      destruct (el_get s TL k (h_ver h) (SI (if head then hd0 else tl0))); cbn [fst]; auto.
+      destruct (el_get s TL k (h_ver h) (SI (if head then hd0 else tl0))); cbn [fst]; [|now apply vers_apply_fix].
       match goal with |- context [list_set_meta ?a ?b ?c ?d ?e] => destruct (list_set_meta a b c d e) as [s2|] eqn:LS end; cbn [fst]; auto.
       eapply vers_list_set_meta; eauto; [|now apply vers_el_del].
       destruct ud as [[a b]|]; [eapply hdr_ver; eauto | destruct ex; discriminate].
